@@ -136,36 +136,64 @@ func overflowGuards(fn *ssa.Function, arith ssa.Instruction, operands []ssa.Valu
 		if !ok {
 			continue
 		}
-		bo, ok := iff.Cond.(*ssa.BinOp)
-		if !ok {
-			continue
+		// the comparisons this branch decides on: the condition itself, or -- for a boolean variable that collects the
+		// verdict of several comparisons (overflow := false; switch { case inc > 0: overflow = v > Max-inc; .. }) -- every
+		// comparison that can flow into it; such a variable must send its true edge away from the arithmetic
+		var cmps []*ssa.BinOp
+		viaFlag := false
+		if bo, ok := iff.Cond.(*ssa.BinOp); ok {
+			cmps = []*ssa.BinOp{bo}
+		} else if phi, ok := iff.Cond.(*ssa.Phi); ok {
+			seenV := map[ssa.Value]bool{}
+			var collect func(v ssa.Value)
+			collect = func(v ssa.Value) {
+				if seenV[v] {
+					return
+				}
+				seenV[v] = true
+				switch x := v.(type) {
+				case *ssa.Phi:
+					for _, e := range x.Edges {
+						collect(e)
+					}
+				case *ssa.BinOp:
+					cmps = append(cmps, x)
+				}
+			}
+			collect(phi)
+			viaFlag = true
 		}
-		switch bo.Op {
-		case token.GTR, token.LSS, token.GEQ, token.LEQ, token.EQL, token.NEQ:
-		default:
-			continue
+		for _, bo := range cmps {
+			switch bo.Op {
+			case token.GTR, token.LSS, token.GEQ, token.LEQ, token.EQL, token.NEQ:
+			default:
+				continue
+			}
+			var h, l bool
+			if isOperand(bo.X) {
+				h, l = extreme(bo.Y)
+			}
+			if isOperand(bo.Y) {
+				h2, l2 := extreme(bo.X)
+				h, l = h || h2, l || l2
+			}
+			if !h && !l {
+				continue
+			}
+			// one of the two edges must be an "overflow" edge that never reaches the arithmetic
+			if !b.Dominates(arith.Block()) && !reach(b, arith.Block()) {
+				continue
+			}
+			rejects := !reach(b.Succs[0], arith.Block()) || !reach(b.Succs[1], arith.Block())
+			if viaFlag {
+				rejects = !reach(b.Succs[0], arith.Block())
+			}
+			if !rejects {
+				continue
+			}
+			hi = hi || h
+			lo = lo || l
 		}
-		var h, l bool
-		if isOperand(bo.X) {
-			h, l = extreme(bo.Y)
-		}
-		if isOperand(bo.Y) {
-			h2, l2 := extreme(bo.X)
-			h, l = h || h2, l || l2
-		}
-		if !h && !l {
-			continue
-		}
-		// one of the two edges must be an "overflow" edge that never reaches the arithmetic
-		if !b.Dominates(arith.Block()) && !reach(b, arith.Block()) {
-			continue
-		}
-		rejects := !reach(b.Succs[0], arith.Block()) || !reach(b.Succs[1], arith.Block())
-		if !rejects {
-			continue
-		}
-		hi = hi || h
-		lo = lo || l
 	}
 	return
 }
